@@ -64,6 +64,14 @@ def run(pid):
             frs.append({"rate": rnd.choice(rates), "channels": ch, "bps": bps, "len": ln + (k % 3), "seed": 1000 * k + j, "signal": sig})
         arrangements.append({"id": 200000 + k, "frames": frs, "garbage": [[] for _ in range(len(frs) + 1)], "pred": [],
                              "chunkings": [[], [3, 1, 7]], "log_frames": k < 7})
+    # ... and digital silence / constants in the same channel slot at changing depths and channel counts (ids 200100..)
+    for k in range(14):
+        frs = []
+        for j, (ch, bps, ln, sig) in enumerate(((2, 16, 32, "zero"), (2, 24, 32, "zero"), (1, 8, 17, "zero"), (2, 8, 32, "zero"), (2, 32, 20, "stereo"), (2, 12, 32, "zero"),
+                                                (2, 16, 32, "gapmix:8"), (2, 20, 32, "zero"), (3, 16, 16, "const"), (3, 24, 16, "const"))):
+            frs.append({"rate": rnd.choice(rates), "channels": ch, "bps": bps, "len": ln + (k % 2), "seed": 3000 * k + j, "signal": sig})
+        arrangements.append({"id": 200100 + k, "frames": frs, "garbage": [[] for _ in range(len(frs) + 1)], "pred": [],
+                             "chunkings": [[], [5]], "log_frames": k < 7, "sessions": [len(frs)]})
     # impl -> spec: long clean and dirty concatenations with random garbage bytes (pred unknown: <<-1>>)
     toks = ["FF", "S", "x", "x", "x"]
     for i in range(60 if t == "quick" else 8000):
@@ -81,6 +89,10 @@ def run(pid):
                 garbage.append(gstr)
         arrangements.append({"id": 100000 + i, "frames": [frame(k) for k in range(n)], "garbage": garbage, "pred": [],
                              "chunkings": [[], [1], [rnd.randint(2, 9), rnd.randint(1, 40)]], "log_frames": i < (6 if t == "quick" else 400)})
+        if i % 4 != 3:
+            # several writers in turn on the same sink (an encoder restarted on a live feed): frame numbers 0, 1, 2, 0, 1, ...
+            arrangements[-1]["sessions"] = [[3, 2], [1, 4, 2], [2]][i % 4]
+            arrangements[-1]["log_frames"] = False
     parts = [arrangements[i::8] for i in range(8)]
 
     def drive(ip):
